@@ -177,7 +177,12 @@ class Handlers(UserDict):
         # NOTE(vytas): In the unlikely case we are dealing with a subclass,
         #   return the matching type.
         handlers_cls = type(self)
-        return handlers_cls(self.data)
+        handlers = handlers_cls(self.data)
+        if not self.data:
+            # NOTE: The constructor fills an empty initial mapping with the
+            #   default handlers; a copy of an empty mapping must stay empty.
+            handlers.clear()
+        return handlers
 
 
 def _best_match(media_type: str, all_media_types: Sequence[str]) -> Optional[str]:
